@@ -314,7 +314,7 @@ func (x *exec) judge() *verdict {
 
 	// non-vacuity
 	for _, s := range []side{cli, srv} {
-		v.counters["max_generation_"+s.String()] = maxGen[s]
+		v.counters[fmt.Sprintf("executions_%s_reached_gen%d", s, maxGen[s])] = 1
 	}
 	completed := 0
 	for _, o := range x.ops {
